@@ -52,6 +52,9 @@ func TestC14(t *testing.T) {
 			opts := cmdGenOpts{Binary: binary, Keys: keys, TwoPorts: false, NoExpiry: true, MaxGetLen: 3, GetE: cfg.Shape == "l1only" && cfg.L1 != "chunked"}
 			for s := 0; s < steps; s++ {
 				c := genCmd(t, opts, now)
+				if len(c.Value) > 5003 {
+					c.Value = c.Value[:5003] // interference is the subject here, not size; the race-detector build moves large values very slowly
+				}
 				if cfg.L1 == "chunked" && len(c.Value) > 0 && rapid.IntRange(0, 3).Draw(t, "multiChunk") == 0 {
 					c.Value = mkValue(uint32(ci*100+s), 2500)
 				}
